@@ -211,13 +211,13 @@ def relevant_failures(prop, h, fails):
     return fails
 
 
-def run_x(out: Outcome, programs, prop, max_cex=8, nshards=None, timeout_s=600, history=True):
+def run_x(out: Outcome, programs, prop, max_cex=8, nshards=None, timeout_s=600, history=True, collect_only=False, tag=None):
     """proves the X obligations of `prop` on `programs`; fills `out`"""
-    work = os.path.join(WORK, prop)
+    work = os.path.join(WORK, tag or prop)
     os.makedirs(work, exist_ok=True)
     progs = [p for p in programs if prop in p.props]
     if not progs:
-        return
+        return []
     dumps, errs = xrun.dump_expansions(work, progs)
     for pid, es in errs.items():
         out.notes.append(f"declaration group {pid} does not compile with the real macro: {es[0]['message'][:200]}")
@@ -258,7 +258,7 @@ def run_x(out: Outcome, programs, prop, max_cex=8, nshards=None, timeout_s=600, 
             raise Infra(f"contracts could not be attached in {t}: {inv['unmatched_contracts'][:3]}")
     n = sum(len(v) for v in sel.values())
     if n == 0:
-        return
+        return []
     if nshards is None:
         nshards = max(1, min(8, n // 40))
     crates = xrun.build_kani_crates(work, progs, ann, sel, nshards)
@@ -326,6 +326,12 @@ def run_x(out: Outcome, programs, prop, max_cex=8, nshards=None, timeout_s=600, 
         src = RP.program_source(p, h, inputs) if inputs is not None else None
         items.append({"obligation": obname, "detail": f"{c.get('function')}: {norm_ws(c.get('description', ''))[:300]}",
                       "program_text": p.decl_text(), "verifier_output": vo, "inputs": inputs, "src": src})
+    if collect_only:
+        for cdir, _ in crates:
+            shutil.rmtree(os.path.join(cdir, "target"), ignore_errors=True)
+        for t in rest:
+            items.append({"obligation": t[0], "detail": "further failed obligation", "program_text": t[1].decl_text(), "inputs": None, "src": None})
+        return items
     report_violations(out, items)
     if rest:
         out.extra["further_failed_obligations"] = [t[0] for t in rest]
@@ -334,5 +340,6 @@ def run_x(out: Outcome, programs, prop, max_cex=8, nshards=None, timeout_s=600, 
     # clean the bulky build output
     for cdir, _ in crates:
         shutil.rmtree(os.path.join(cdir, "target"), ignore_errors=True)
+    return []
 
 
